@@ -171,7 +171,7 @@ def run(ctx, focuses, n, with_model=True):
         except Exception as ex:  # noqa
             rec = {"e": common.classify_exc(ex)}
         after = [common.outcome_of(lambda e=e: ev(**e)) for e in envs]
-        hist = {"history": [["new", t1], ["recompile", t2]] + [["call", common.enc_env(e)] for e in envs[:3]], "kind": kind, "focus": focus}
+        hist = {"history": [["new", 0, t1], ["recompile", 0, t2]] + [["call", 0, common.enc_env(e)] for e in envs[:3]], "kind": kind, "focus": focus}
         if focus == "invalid":
             if rec == "ok":
                 ctx.violation(f"recompile() of a text that is no experiment returns silently (evaluator held a valid twin): {t2[-60:]!r}",
@@ -192,12 +192,12 @@ def run(ctx, focuses, n, with_model=True):
                 ctx.violation(
                     f"after recompile() with a text that differs from the loaded one only by {kind} ({focus}), the evaluator answers "
                     f"{json.dumps(a)[:80]} on {json.dumps(common.enc_env(e))[:100]}; an evaluator built from that text answers {json.dumps(f_)[:80]}",
-                    dict(hist, env=common.enc_env(e), impl=a, fresh=f_))
+                    dict(hist, history=hist["history"][:2] + [["call", 0, common.enc_env(e)]], env=common.enc_env(e), impl=a, fresh=f_))
                 break
             if mo is not None and "r" not in mo and mo != a:
                 # both evaluators agree with each other but not with the model of T2: state shared across compilations
                 ctx.violation(
                     f"an evaluator given a text that differs from an earlier one only by {kind} ({focus}) answers {json.dumps(a)[:80]} on "
                     f"{json.dumps(common.enc_env(e))[:100]}; the text prescribes {json.dumps(mo)[:80]}",
-                    dict(hist, env=common.enc_env(e), impl=a, model=mo))
+                    dict(hist, history=hist["history"][:2] + [["call", 0, common.enc_env(e)]], env=common.enc_env(e), impl=a, model=mo))
                 break
